@@ -1,0 +1,32 @@
+//go:build verif
+
+package tls
+
+// Verification hooks for property C31 (real resumption handshakes): read and
+// replace the ticket held by a ClientSessionState. Built only with -tags verif.
+
+// ZVSessionTicket returns a copy of the encrypted ticket held by s.
+func ZVSessionTicket(s *ClientSessionState) []byte {
+	return append([]byte(nil), s.sessionTicket...)
+}
+
+// ZVSessionInfo returns the version, cipher suite and (resumption) master secret of s.
+func ZVSessionInfo(s *ClientSessionState) (vers, suite uint16, secret []byte) {
+	return s.vers, s.cipherSuite, append([]byte(nil), s.masterSecret...)
+}
+
+// ZVSessionWithTicket returns a copy of s that presents ticket instead of the
+// one the server issued; all client-side secrets are kept.
+func ZVSessionWithTicket(s *ClientSessionState, ticket []byte) *ClientSessionState {
+	c := *s
+	c.sessionTicket = append([]byte(nil), ticket...)
+	return &c
+}
+
+// ZVSessionAs returns a copy of s that claims version vers and cipher suite suite
+// (to present a ticket in a handshake of another version).
+func ZVSessionAs(s *ClientSessionState, vers, suite uint16) *ClientSessionState {
+	c := *s
+	c.vers, c.cipherSuite = vers, suite
+	return &c
+}
